@@ -76,16 +76,14 @@ non-trivial run without the integrality shortcut. -/
 theorem C13_endpoints_partial (o : FOps) (f : Fn) (p : Params) (fuel : Nat) (d : Dom) (r : Res)
     (hper : f.periodic = false) (hint : p.isInt = false)
     (hd : clipDomain f p = .ok d)
-    (hnontriv : ¬ fsub o d.ubx eps6 < d.lbx) (hord : ¬ o.toF d.ubx < o.toF d.lbx)
+    (hnontriv : domainClass o d.lbx d.ubx = 2) (hord : ¬ o.toF d.ubx < o.toF d.lbx)
     (h : run o f p fuel = .ok r) :
     r.xs.head? = some (o.toF d.lbx) ∧ r.domOut = d := by
   unfold run at h
   rw [hd] at h
   simp only [bind, Except.bind] at h
-  split at h
-  · exact (throw_ne_ok h).elim
-  · try rw [if_neg hnontriv] at h
-    simp only [hper, Bool.false_eq_true, if_false] at h
+  rw [if_neg (by rw [hnontriv]; decide), if_neg (by rw [hnontriv]; decide)] at h
+  · simp only [hper, Bool.false_eq_true, if_false] at h
     split at h
     · cases h
     · rename_i v heq
@@ -167,10 +165,10 @@ theorem C13_periodic_cover (sq : Rat → Rat) (f : Fn) (d : Dom) (res : Res) (bp
       obtain ⟨n, h1, h2, h3, h4⟩ := periodic_cover_arith d.lbx d.ubx f.perLb f.perUb x hp hl hu
       subst this
       refine ⟨n, ?_, ?_, ?_, ?_, rfl⟩
-      · simp only [fsub, fdiv, exactOps, id]; exact_mod_cast h1
-      · simp only [fsub, fdiv, exactOps, id]; exact_mod_cast h2
-      · simp only [fsub, exactOps, id]; exact h3
-      · simp only [fsub, exactOps, id]; exact h4
+      · simp only [periodLen, facArg, fsub, fdiv, exactOps, id]; exact_mod_cast h1
+      · simp only [periodLen, facArg, fsub, fdiv, exactOps, id]; exact_mod_cast h2
+      · simp only [periodLen, fsub, exactOps, id]; exact h3
+      · simp only [periodLen, fsub, exactOps, id]; exact h4
     · exact (throw_ne_ok h).elim
 
 /-! ## integer arguments -/
